@@ -198,6 +198,12 @@ def step (st : St) (line : String) : St × String :=
     | .none => ({ st with txn := .open_ }, "ok")
     | .open_ => (st, "bad-op")
     | .aborted => (st, "skipped")
+  | ["reopen"] =>
+    -- close + reopen of a persistent variant: no observable effect (C06); not allowed inside a transaction
+    match st.txn with
+    | .none => (st, "ok")
+    | .open_ => (st, "bad-op")
+    | .aborted => (st, "skipped")
   | ["txn_fail"] =>
     match st.txn with
     | .none => (st, "bad-op")
